@@ -24,6 +24,14 @@ import (
 //	pkg/eval/exprEval.go      evalTransform / evalTransformUsingAppender: the same for transforms
 //	                          (SvDeleteThenRestore | SvDeleteOnly | SvRestoreOnly | SvLeak | SvUnknown)
 //
+//	pkg/eval/exprEval.go      evalCall: the ORDER in which a call name is looked up (call_order: the application's
+//	                          views / names starting with "." / the helper table), read off the order of its
+//	                          statements; the scope a called view's body runs in (call_scope: a fresh map / the caller's)
+//	pkg/eval/goFuncs.go       GoFuncMap: helper name -> (Go function, argument types, result type) (go_func_map);
+//	                          isReflectValueExpectedType: is element 0 of a slice result read without a length test
+//	                          (slice_result_guard)
+//	pkg/eval/exprEval.go      does any function assign to <view>.Expr.Type, i.e. write into the module (eval_writes_view_type)
+//
 // Entries are emitted sorted, keyed by operator / kind names, never by position. A function name the model
 // does not know becomes F_unknown / G_unknown / U_unknown / SUnknown, and the `reflexivity` lemmas of
 // Eval/Tables.v stop checking. An operator or kind name the model does not know makes the file ill-typed.
@@ -241,9 +249,13 @@ func evalTables(repo string) (string, error) {
 	if err != nil {
 		return "", err
 	}
+	gf, err := parseGo(repo, "pkg/eval/goFuncs.go")
+	if err != nil {
+		return "", err
+	}
 	var sb strings.Builder
-	sb.WriteString("(* GENERATED by vt EvalTables from pkg/eval/{binexprEval,unaryEval,exprOp,exprEval}.go -- do not edit *)\n")
-	sb.WriteString("From Coq Require Import List String.\nImport ListNotations.\nRequire Import Verif.Eval.Value.\n")
+	sb.WriteString("(* GENERATED by vt EvalTables from pkg/eval/{binexprEval,unaryEval,exprOp,exprEval,goFuncs}.go -- do not edit *)\n")
+	sb.WriteString("From Coq Require Import List String.\nImport ListNotations.\nRequire Import Verif.Eval.Value.\nLocal Open Scope string_scope.\n")
 
 	// 1. strategy table
 	lit := findVarLit(bf.file, "functionEvalStrategy")
@@ -443,7 +455,376 @@ func evalTables(repo string) (string, error) {
 	fmt.Fprintf(&sb, "Definition transform_scopevar : sv_after := %s.\n", transformScopeVar(ef.file))
 	fmt.Fprintf(&sb, "Definition set_transform_appender : appender_kind := %s.\n", wrapperUses("evalTransformUsingValueSet"))
 	fmt.Fprintf(&sb, "Definition list_transform_appender : appender_kind := %s.\n", wrapperUses("evalTransformUsingValueList"))
+	order, cscope := callResolution(ef.file)
+	fmt.Fprintf(&sb, "Definition call_order : list call_step := [%s].\n", strings.Join(order, "; "))
+	fmt.Fprintf(&sb, "Definition call_scope : call_scope_kind := %s.\n", cscope)
+	gm, err := goFuncMap(gf.file)
+	if err != nil {
+		return "", err
+	}
+	fmt.Fprintf(&sb, "Definition go_func_map : list (string * (gimpl * list gty * gty)) := [\n  %s].\n", strings.Join(gm, ";\n  "))
+	fmt.Fprintf(&sb, "Definition slice_result_guard : slice_guard := %s.\n", sliceResultGuard(gf.file))
+	fmt.Fprintf(&sb, "Definition eval_writes_view_type : bool := %v.\n", writesViewType(ef.file))
 	return sb.String(), nil
+}
+
+// ---- call resolution: evalCall ----
+
+// terminates: control never leaves the block by falling off its end
+func terminates(b *ast.BlockStmt) bool {
+	if b == nil || len(b.List) == 0 {
+		return false
+	}
+	return stmtTerminates(b.List[len(b.List)-1])
+}
+
+func stmtTerminates(st ast.Stmt) bool {
+	switch x := st.(type) {
+	case *ast.ReturnStmt:
+		return true
+	case *ast.ExprStmt:
+		if c, ok := x.X.(*ast.CallExpr); ok && isIdent(c.Fun, "panic") {
+			return true
+		}
+	case *ast.BlockStmt:
+		return terminates(x)
+	case *ast.IfStmt:
+		if x.Else == nil || !terminates(x.Body) {
+			return false
+		}
+		return stmtTerminates(x.Else)
+	case *ast.SwitchStmt, *ast.TypeSwitchStmt:
+		var body *ast.BlockStmt
+		if s, ok := x.(*ast.SwitchStmt); ok {
+			body = s.Body
+		} else {
+			body = x.(*ast.TypeSwitchStmt).Body
+		}
+		hasDefault := false
+		for _, c := range body.List {
+			cc := c.(*ast.CaseClause)
+			if cc.List == nil {
+				hasDefault = true
+			}
+			if len(cc.Body) == 0 || !stmtTerminates(cc.Body[len(cc.Body)-1]) {
+				return false
+			}
+		}
+		return hasDefault
+	}
+	return false
+}
+
+// endsWith: the selector chain ends in the given names
+func endsWith(e ast.Expr, names ...string) bool {
+	ch := selChain(e)
+	if len(ch) < len(names) {
+		return false
+	}
+	for i, n := range names {
+		if ch[len(ch)-len(names)+i] != n {
+			return false
+		}
+	}
+	return true
+}
+
+// callResolution reads evalCall: the places a call name is looked up in, in statement order, and the scope a called
+// view's body is evaluated in.
+//
+//	if v, has := <..>.Views[<..>.Func]; has { ... every path returns ... }     CallView
+//	else if strings.HasPrefix(<..>.Func, ".") { ... returns / panics ... }       CallDot
+//	return evalGoFunc(<..>.Func, ...)                                          CallGoFunc (ends the list)
+//
+// anything else in that chain is CallUnknown (the model answers Unmodelled and the obligation call_order_views_first
+// stops checking).
+func callResolution(f *ast.File) ([]string, string) {
+	var order []string
+	cscope := "CsUnknown"
+	for _, fd := range funcDecls(f) {
+		if fd.Name.Name != "evalCall" || fd.Recv != nil || fd.Body == nil {
+			continue
+		}
+		done := false
+		for _, st := range fd.Body.List {
+			if done {
+				break
+			}
+			switch x := st.(type) {
+			case *ast.IfStmt:
+				var link ast.Stmt = x
+				for link != nil && !done {
+					is, ok := link.(*ast.IfStmt)
+					if !ok { // a plain else block
+						order = append(order, "CallUnknown")
+						done = true
+						break
+					}
+					step := "CallUnknown"
+					if as, ok := is.Init.(*ast.AssignStmt); ok && as.Tok == token.DEFINE && len(as.Lhs) == 2 && len(as.Rhs) == 1 {
+						if ix, ok := as.Rhs[0].(*ast.IndexExpr); ok && endsWith(ix.X, "Views") && endsWith(ix.Index, "Func") {
+							if h, ok := as.Lhs[1].(*ast.Ident); ok && isIdent(is.Cond, h.Name) {
+								step = "CallView"
+							}
+						}
+					} else if is.Init == nil {
+						if c, ok := is.Cond.(*ast.CallExpr); ok && endsWith(c.Fun, "strings", "HasPrefix") && len(c.Args) == 2 && endsWith(c.Args[0], "Func") {
+							if bl, ok := c.Args[1].(*ast.BasicLit); ok && bl.Value == `"."` {
+								step = "CallDot"
+							}
+						}
+					}
+					if !terminates(is.Body) {
+						step = "CallUnknown"
+					}
+					order = append(order, step)
+					if step == "CallUnknown" {
+						done = true
+					}
+					if step == "CallView" {
+						cscope = callScopeKind(is.Body)
+					}
+					link = is.Else
+				}
+			case *ast.ReturnStmt:
+				step := "CallUnknown"
+				if len(x.Results) == 1 {
+					if c, ok := x.Results[0].(*ast.CallExpr); ok && isIdent(c.Fun, "evalGoFunc") && len(c.Args) == 2 && endsWith(c.Args[0], "Func") {
+						step = "CallGoFunc"
+					}
+				}
+				order = append(order, step)
+				done = true
+			}
+		}
+	}
+	return order, cscope
+}
+
+// callScopeKind: in the view branch of evalCall, `return Eval(ee, S, <..>.Expr)` with S := make(Scope) is CsFresh, with
+// S the caller's map (`assign` itself or S := assign) CsShared. The arguments must be evaluated in `assign`.
+func callScopeKind(b *ast.BlockStmt) string {
+	if len(b.List) == 0 {
+		return "CsUnknown"
+	}
+	ret, ok := b.List[len(b.List)-1].(*ast.ReturnStmt)
+	if !ok || len(ret.Results) != 1 {
+		return "CsUnknown"
+	}
+	c, ok := ret.Results[0].(*ast.CallExpr)
+	if !ok || !isIdent(c.Fun, "Eval") || len(c.Args) != 3 {
+		return "CsUnknown"
+	}
+	// the body: <view>.Expr, or viewBody(<view>) (fixes/C10-5: the type defaulted on a copy)
+	if vb, isCall := c.Args[2].(*ast.CallExpr); isCall {
+		if !isIdent(vb.Fun, "viewBody") || len(vb.Args) != 1 {
+			return "CsUnknown"
+		}
+	} else if !endsWith(c.Args[2], "Expr") {
+		return "CsUnknown"
+	}
+	sc, ok := c.Args[1].(*ast.Ident)
+	if !ok {
+		return "CsUnknown"
+	}
+	kind := "CsUnknown"
+	if sc.Name == "assign" {
+		kind = "CsShared"
+	}
+	argsInCaller := true
+	ast.Inspect(b, func(n ast.Node) bool {
+		as, ok := n.(*ast.AssignStmt)
+		if !ok || len(as.Lhs) != 1 || len(as.Rhs) != 1 {
+			return true
+		}
+		if as.Tok == token.DEFINE && isIdent(as.Lhs[0], sc.Name) {
+			switch r := as.Rhs[0].(type) {
+			case *ast.CallExpr:
+				if isIdent(r.Fun, "make") && len(r.Args) >= 1 && isIdent(r.Args[0], "Scope") {
+					kind = "CsFresh"
+				}
+			case *ast.CompositeLit:
+				if isIdent(r.Type, "Scope") && len(r.Elts) == 0 {
+					kind = "CsFresh"
+				}
+			case *ast.Ident:
+				if r.Name == "assign" {
+					kind = "CsShared"
+				}
+			}
+		}
+		// S[params[i].Name] = Eval(ee, assign, argExpr)
+		if ix, ok := as.Lhs[0].(*ast.IndexExpr); ok && isIdent(ix.X, sc.Name) {
+			if ec, ok := as.Rhs[0].(*ast.CallExpr); !ok || !isIdent(ec.Fun, "Eval") || len(ec.Args) != 3 || !isIdent(ec.Args[1], "assign") {
+				argsInCaller = false
+			}
+		}
+		return true
+	})
+	if !argsInCaller {
+		return "CsUnknown"
+	}
+	return kind
+}
+
+// ---- the helper table: GoFuncMap ----
+var knownGimpl = map[string]bool{"strings_Contains": true, "strings_Count": true, "strings_Fields": true, "FindAllString": true,
+	"strings_HasPrefix": true, "strings_HasSuffix": true, "strings_Join": true, "strings_LastIndex": true, "MatchString": true,
+	"strings_Replace": true, "strings_Split": true, "titleCaser_String": true, "strings_ToLower": true, "strings_ToTitle": true,
+	"strings_ToUpper": true, "strings_Trim": true, "strings_TrimLeft": true, "strings_TrimPrefix": true, "strings_TrimRight": true,
+	"strings_TrimSpace": true, "strings_TrimSuffix": true}
+
+// the four type variables of goFuncs.go, checked against what their composite literals mention
+func goTypeVars(f *ast.File) map[string]string {
+	out := map[string]string{}
+	for _, d := range f.Decls {
+		gd, ok := d.(*ast.GenDecl)
+		if !ok || gd.Tok != token.VAR {
+			continue
+		}
+		for _, sp := range gd.Specs {
+			vs, ok := sp.(*ast.ValueSpec)
+			if !ok {
+				continue
+			}
+			for i, n := range vs.Names {
+				if i >= len(vs.Values) {
+					continue
+				}
+				var sels []string
+				ast.Inspect(vs.Values[i], func(m ast.Node) bool {
+					if se, ok := m.(*ast.SelectorExpr); ok {
+						sels = append(sels, se.Sel.Name)
+					}
+					return true
+				})
+				has := func(s string) bool {
+					for _, x := range sels {
+						if x == s {
+							return true
+						}
+					}
+					return false
+				}
+				isList := has("Type_List_") || has("Type_List")
+				switch {
+				case n.Name == "stringType" && has("Type_STRING") && !isList:
+					out[n.Name] = "GtString"
+				case n.Name == "intType" && has("Type_INT") && !isList:
+					out[n.Name] = "GtInt"
+				case n.Name == "boolType" && has("Type_BOOL") && !isList:
+					out[n.Name] = "GtBool"
+				case n.Name == "listStringType" && has("Type_STRING") && isList:
+					out[n.Name] = "GtListString"
+				}
+			}
+		}
+	}
+	return out
+}
+
+func goFuncMap(f *ast.File) ([]string, error) {
+	lit := findVarLit(f, "GoFuncMap")
+	if lit == nil {
+		return nil, fmt.Errorf("GoFuncMap not found")
+	}
+	tv := goTypeVars(f)
+	ty := func(e ast.Expr) string {
+		if id, ok := e.(*ast.Ident); ok {
+			if t, ok := tv[id.Name]; ok {
+				return t
+			}
+		}
+		return "GtUnknown"
+	}
+	var rows []string
+	for _, el := range lit.Elts {
+		kv, ok := el.(*ast.KeyValueExpr)
+		if !ok {
+			return nil, fmt.Errorf("GoFuncMap: unexpected element")
+		}
+		key, ok := kv.Key.(*ast.BasicLit)
+		if !ok || key.Kind != token.STRING {
+			return nil, fmt.Errorf("GoFuncMap: key is not a string literal")
+		}
+		val, ok := kv.Value.(*ast.CompositeLit)
+		if !ok || len(val.Elts) != 3 {
+			return nil, fmt.Errorf("GoFuncMap[%s]: value is not {fn, args, ret}", key.Value)
+		}
+		impl := "I_unknown"
+		if c, ok := val.Elts[0].(*ast.CallExpr); ok && endsWith(c.Fun, "reflect", "ValueOf") && len(c.Args) == 1 {
+			if n := strings.Join(selChain(c.Args[0]), "_"); knownGimpl[n] {
+				impl = "I_" + n
+			}
+		}
+		var args []string
+		al, ok := val.Elts[1].(*ast.CompositeLit)
+		if !ok {
+			return nil, fmt.Errorf("GoFuncMap[%s]: argument types are not a literal", key.Value)
+		}
+		for _, a := range al.Elts {
+			args = append(args, ty(a))
+		}
+		rows = append(rows, fmt.Sprintf("(%s, (%s, [%s], %s))", key.Value, impl, strings.Join(args, "; "), ty(val.Elts[2])))
+	}
+	sort.Strings(rows)
+	return rows, nil
+}
+
+// isReflectValueExpectedType: `r.Index(0)` inside the `kind == reflect.Slice` block with no returning test of r.Len()
+// before it is SliceIndexUnguarded (an empty slice result panics); no Index(0) at all, or a returning `if r.Len() ...`
+// before it, is SliceLenGuarded.
+func sliceResultGuard(f *ast.File) string {
+	for _, fd := range funcDecls(f) {
+		if fd.Name.Name != "isReflectValueExpectedType" || fd.Body == nil {
+			continue
+		}
+		res := "SliceUnknown"
+		ast.Inspect(fd.Body, func(n ast.Node) bool {
+			is, ok := n.(*ast.IfStmt)
+			if !ok {
+				return true
+			}
+			be, ok := is.Cond.(*ast.BinaryExpr)
+			if !ok || be.Op != token.EQL || !endsWith(be.Y, "reflect", "Slice") {
+				return true
+			}
+			guarded, indexed, unguardedIndex := false, false, false
+			for _, st := range is.Body.List {
+				if g, ok := st.(*ast.IfStmt); ok && terminates(g.Body) {
+					mentionsLen := false
+					ast.Inspect(g.Cond, func(m ast.Node) bool {
+						if c, ok := m.(*ast.CallExpr); ok && endsWith(c.Fun, "Len") {
+							mentionsLen = true
+						}
+						return true
+					})
+					if mentionsLen {
+						guarded = true
+						continue
+					}
+				}
+				ast.Inspect(st, func(m ast.Node) bool {
+					if c, ok := m.(*ast.CallExpr); ok && endsWith(c.Fun, "Index") {
+						indexed = true
+						if !guarded {
+							unguardedIndex = true
+						}
+					}
+					return true
+				})
+			}
+			switch {
+			case unguardedIndex:
+				res = "SliceIndexUnguarded"
+			case !indexed || guarded:
+				res = "SliceLenGuarded"
+			}
+			return false
+		})
+		return res
+	}
+	return "SliceUnknown"
 }
 
 // ---- what the code does with the scope variable of an iteration once the iteration is over ----
@@ -643,4 +1024,26 @@ func transformScopeVar(f *ast.File) string {
 		return svKind(false, restore)
 	}
 	return "SvUnknown"
+}
+
+// writesViewType: does any function of exprEval.go assign to <..>.Expr.Type (the body type of a view of the shared
+// module: EvaluateView / evalCall used to default it in place)
+func writesViewType(f *ast.File) bool {
+	found := false
+	for _, fd := range funcDecls(f) {
+		if fd.Body == nil {
+			continue
+		}
+		ast.Inspect(fd.Body, func(n ast.Node) bool {
+			if as, ok := n.(*ast.AssignStmt); ok {
+				for _, l := range as.Lhs {
+					if endsWith(l, "Expr", "Type") {
+						found = true
+					}
+				}
+			}
+			return true
+		})
+	}
+	return found
 }
